@@ -44,7 +44,7 @@ func compositeStores(fn *ssa.Function, typ string) map[string]ssa.Value {
 			}
 			fv := fieldVar(fa.X.Type(), fa.Field)
 			if fv != nil {
-				res[fv.Name()] = st.Val
+				res[refName(fv)] = st.Val
 			}
 		}
 	}
@@ -167,12 +167,12 @@ func c15db(p *Prog, r *Report) {
 	src := map[string]string{}
 	for w, v := range compositeStores(m, "eventWrapper") {
 		if fv, _ := fieldOf(unwrap(v)); fv != nil {
-			src[w] = fv.Name()
+			src[w] = refName(fv)
 		} else {
 			// loaded through a chain: find the innermost field
 			dependsOn(v, func(x ssa.Value) bool {
 				if fv, _ := fieldOf(x); fv != nil && src[w] == "" {
-					src[w] = fv.Name()
+					src[w] = refName(fv)
 				}
 				return false
 			})
@@ -184,7 +184,7 @@ func c15db(p *Prog, r *Report) {
 		for f, v := range compositeStores(u, typ) {
 			dependsOn(v, func(x ssa.Value) bool {
 				if fv, _ := fieldOf(x); fv != nil && fieldOwner(p, fv) == "eventWrapper" && back[f] == "" {
-					back[f] = fv.Name()
+					back[f] = refName(fv)
 				}
 				return false
 			})
@@ -347,7 +347,7 @@ func canonRule(p *Prog, r *Report, rule string) {
 						continue
 					}
 					fv, base := fieldOf(st.Addr)
-					if fv == nil || fv.Name() != "Canonical" {
+					if fv == nil || refName(fv) != "Canonical" {
 						continue
 					}
 					if !(depOnValue(h, base) || sameOrigin(unwrap(h), base) || depOnValue(base, unwrap(h)) || rootAllocOf(base) == rootAllocOf(unwrap(h))) {
@@ -400,7 +400,7 @@ func verbatimFromField(fn *ssa.Function, v ssa.Value, name string) bool {
 			return
 		}
 		seen[x] = true
-		if fv, _ := fieldOf(x); fv != nil && fv.Name() == name {
+		if fv, _ := fieldOf(x); fv != nil && refName(fv) == name {
 			anyField = true
 			return
 		}
